@@ -84,6 +84,8 @@ class Sym:
                 a = z3.ToReal(a) if self.kind == "int" else a
                 b = z3.ToReal(b) if o.kind == "int" else b
             return a, b, kind
+        if getattr(o, "ndim", 0):
+            return None  # an array operand: let numpy broadcast element-wise
         if isinstance(o, bool):
             o = int(o)
         if isinstance(o, int):
